@@ -11,6 +11,7 @@ CONFIGS = {
         ("QuotaApiQ.cfg", dict(M=16, K=1 << 60)),
         ("QuotaCallQ.cfg", dict(M=16, K=1 << 60)),
         ("QuotaApiSmallQ.cfg", dict(M=1 << 20, K=1)),
+        ("QuotaTimeQ.cfg", dict(M=1 << 20, K=1)),
     ],
     "thorough": [
         ("QuotaCpuApi.cfg", dict(M=16, K=1 << 60)),
@@ -18,6 +19,8 @@ CONFIGS = {
         ("QuotaCall.cfg", dict(M=16, K=1 << 60)),
         ("QuotaApiSmall.cfg", dict(M=1 << 20, K=1)),
         ("QuotaCallSmall.cfg", dict(M=1 << 20, K=1)),
+        ("QuotaTime.cfg", dict(M=1 << 20, K=1)),
+        ("QuotaTimeApi.cfg", dict(M=1 << 20, K=1)),
     ],
 }
 
@@ -50,6 +53,8 @@ def run(prop, tier, only_inv=None):
             if c.get("nil"):
                 return {"nil": True}
             d = {k: f(c[k]) for k in ("hc", "hm", "sc", "sm", "uc", "um")}
+            for k in ("hms", "sms", "ums"):      # milliseconds are never scaled
+                d[k] = str(c[k])
             d["status"] = c["status"]
             d["flags"] = sorted(c["flags"])
             d["due"] = c["due"]
@@ -63,7 +68,7 @@ def run(prop, tier, only_inv=None):
             for a in line["h"]:
                 o = {"op": a["op"]}
                 if "n" in a:
-                    o["n"] = f(a["n"])
+                    o["n"] = str(a["n"]) if a["op"] == "tick" else f(a["n"])
                 if "lv" in a:
                     o["lv"] = a["lv"]
                 if "err" in a:
@@ -71,7 +76,7 @@ def run(prop, tier, only_inv=None):
                 if "def" in a:
                     d = a["def"]
                     o["def"] = {"hc": f(d["hc"]), "hm": f(d["hm"]), "sc": f(d["sc"]), "sm": f(d["sm"]),
-                                "flags": sorted(d["flags"])}
+                                "hms": str(d["hms"]), "sms": str(d["sms"]), "flags": sorted(d["flags"])}
                 ops.append(o)
             return {"h": ops}
 
@@ -103,8 +108,8 @@ def run(prop, tier, only_inv=None):
                         else:
                             r = {"nil": True}
                         gl["ret"] = r
-                    if el.get("op") in ("push", "begin", "init"):
-                        el = {"op": el["op"]}
+                    if el.get("op") == "init":
+                        el = {"op": "init"}
                         gl = {"op": gl.get("op")} if gl.get("op") else {"op": "init"}
                     if el != gl:
                         mism = {"field": "last", "exp": el, "got": gl}
@@ -151,5 +156,6 @@ def run(prop, tier, only_inv=None):
     cov["explanation"] = ("every transition of the bounded Quota model replayed on the real runtimeContextManager through the "
                           "exported Runtime API (values scaled by 2^60 so that 4-bit saturation/wrap is 64-bit saturation/wrap, and "
                           "unscaled with a large modulus); projected state compared after the last action of every path")
-    rep.assumptions += ["time (Millis) limits are not modelled", "work is only requested from a live context (checked on real traces by the C05 check)"]
+    rep.assumptions += ["time limits are exercised through the exported API with the virtual clock of the verif hook (VerifNowHook); "
+                        "Lua programs with wall-clock limits are not run", "work is only requested from a live context (checked on real traces by the C05 check)"]
     return rep.finish()
